@@ -363,7 +363,7 @@ impl Check for C13 {
         check_text(unit, k, &text, &u.widths, Some(w), ctx);
     }
     fn rule(&self) -> String {
-        "documents = help (and sub-command help, and an error message) of 12 layout skeletons (item help with term widths around the tab stop, descr, header+footer, group title, positional help, command help, env row + fallback suffix, adjacent heading, long usage line) with the text slot ranging over EVERY concatenation of <=3 (thorough 4) fragments from {word, 120-char word, space, newline, blank line, newline+space, code line, é, 日本語, tab, NBSP, ESC sequence, --flag}, as one plain string and as a sequence of separately styled tokens (two rotations: text / nested document / literal / emphasis and nested document / text / nested document / emphasis; quick: every seventh width); each document rendered at every width (quick: 1..100, 120, 200, 300; thorough: 1..300) via the Display width and at 65535 as 'unwrapped'; (a) identical once whitespace is removed, (b) for widths >= 40 no line longer than width+2 unless what follows the indentation/term is a single unbreakable word or it is a code line, (c) monochrome(false) equals monochrome(true) of the same definition with the text cut at its first blank line; evaluation = one render; non-trivial = render at width > 1 satisfying (a),(b)".into()
+        "documents = help (and sub-command help, and an error message) of 12 layout skeletons (item help with term widths around the tab stop, descr, header+footer, group title, positional help, command help, env row + fallback suffix, adjacent heading, long usage line) with the text slot ranging over EVERY concatenation of <=3 (thorough 4) fragments from {word, 120-char word, space, newline, blank line, newline+space, code line, é, 日本語, tab, NBSP, ESC sequence, --flag}, as one plain string and as a sequence of separately styled tokens (two rotations: text / nested document / literal / emphasis and nested document / text / nested document / emphasis; quick: every seventh width); each document rendered at every width (quick: 1..100, 120, 200, 300; thorough: 1..300) via the Display width and at 65535 as 'unwrapped'; (a) identical once whitespace is removed, (b) for widths >= 40 no line longer than width+2 unless what follows the indentation/term is a single unbreakable word or it is a code line, (c) monochrome(false) equals monochrome(true) of the same definition with the text cut at its first blank line; evaluation = one render; non-trivial = render at width > 1 satisfying (a),(b); plus nine line-filling paragraphs of short words carrying control / zero-width / wide characters at every width, and the env row showing a value with a blank line".into()
     }
     fn bounds(&self, tier: Tier) -> Value {
         json!({"fragments_per_string": tier.pick(3, 4), "widths": tier.pick("1..100, 120, 200, 300", "1..300"), "skeletons": 12})
